@@ -1,6 +1,31 @@
-(** Properties_C08.v — placeholder while the proofs are being written. *)
-From GW Require Import Base CalTime CalTimeProofs.
+(** Properties_C08.v — C08: CalDAV queries cross the wire without loss, in
+    RFC 4791 form.  Statements only; the proofs are in CalTimeProofs.v,
+    CalWireLex.v, CalWireServer.v and CalWireProofs.v. *)
+From GW Require Import Base CalTime CalTimeProofs CalXml CalWire CalWireLex CalWireServer CalWireProofs.
 
+(** The "date with UTC time" text form round-trips for every instant whose
+    year has four digits. *)
 Theorem C08_time_text_round_trip : forall s, in_range s = true -> parse_utc (fmt_utc s) = Some s.
 Proof. exact parse_fmt_utc. Qed.
 Print Assumptions C08_time_text_round_trip.
+
+(** Wire to backend: every lexical variant (prefixes, declarations, foreign
+    attributes, attribute order, defaulted attributes spelled out, comments,
+    white space, split character data) of the RFC 4791 document of a valid
+    request reaches the backend as exactly that request. *)
+Theorem C08_server_denotes :
+  forall (href_fmt : string -> string) (href_parse : string -> option string) path r doc,
+    valid href_fmt href_parse r = true ->
+    lexvar (rfc_write href_fmt r) doc ->
+    handle_report href_parse path doc = Ok (backend_call_of path r).
+Proof. exact server_denotes. Qed.
+Print Assumptions C08_server_denotes.
+
+(** Client to backend: whatever the caller can express arrives at the
+    backend of the server unchanged, instants as UTC seconds. *)
+Theorem C08_end_to_end :
+  forall (href_fmt : string -> string) (href_parse : string -> option string) path r,
+    expressible href_fmt href_parse r = true ->
+    handle_report href_parse path (client_body href_fmt path r) = Ok (backend_call_of path (normalise r)).
+Proof. exact end_to_end. Qed.
+Print Assumptions C08_end_to_end.
